@@ -8,13 +8,15 @@ from rules import common as C
 UNITS = ['common/iovector.cpp']
 FLOOR = 25
 P = 'C14'
-CLAIM = ('[Also decided: an output element of slice() gets the requested count as its length only as a shrink of the source-derived length; do_extract_front/back remove bytes from the vector only after the (fallible) callback accepted them.] '
-         'Decides ONLY the bounds clause of the property for common/iovector.{h,cpp}: copy lengths and output indices are bounded by both '
-         'sides: the pipe/memcpy step is min(size, dest.len, src.len); every callback of do_extract_front/back receives either the whole '
-         'front/back element or `bytes` under bytes <= its length, and front()/back() are read only while the view is non-empty; the '
-         'sub-vector extractors and slice() store into the output array only below its capacity; the contiguous extractors return a '
-         'pointer only when the element is long enough; element 0 is read only from a non-empty view. Equality with the flat-byte model '
-         '(counts, contents, remaining bytes) is NOT decided.')
+CLAIM = ('Decides for common/iovector.{h,cpp}: (1) the bounds clause - copy lengths and output indices are bounded by both sides: the '
+         'pipe/memcpy step is min(size, dest.len, src.len); every callback of do_extract_front/back receives either the whole front/back '
+         'element or `bytes` under bytes <= its length, and front()/back() are read only while the view is non-empty; the sub-vector '
+         'extractors and slice() store into the output array only below its capacity; an output element of slice() gets the requested '
+         'count as its length only as a shrink of its source-derived length (it never extends past the source element); the contiguous '
+         'extractors return a pointer only when the element is long enough and gather-copy only when the vector holds enough bytes and '
+         'the buffer was allocated; element 0 is read only from a non-empty view; (2) conservation on refusal - do_extract_front/back '
+         'remove bytes from the vector only after the (fallible) callback accepted them. Equality with the flat-byte model (counts, '
+         'contents, remaining bytes) is otherwise NOT decided.')
 
 
 def run(R, prog, tier):
